@@ -22,6 +22,8 @@ from vlib import pitlib, snlib, mpslib
 from vlib.harness import InstanceResult, jsonable
 
 PROPERTY = 'C11'
+LEVEL_TEXT = ('Bounded model checking of the real objects: every call sequence up to the bound is executed on freshly built PIT / MPS / SuperNet models and compared, after every step, with a reference state machine of the documented semantics. '
+              'The state is finite and concrete, so the z3-driven choice variables only enumerate the sequences - the assurance is completeness within the bound, not symbolic data; this is the right level for a finite-state property over histories.')
 TECHNIQUE = 'bounded model checking of the real PIT / MPS / SuperNet objects: the call at each step is a z3 choice variable concretised by forking (all sequences up to the bound), invariant against a reference state machine after every step'
 FUNCTIONS_ENCODED = ['DNAS.train_nas_only/train_net_only/train_net_and_nas', 'PIT.train_features/train_rf/train_dilation/discrete_cost setters', 'PIT/MPS/SuperNet.named_nas_parameters/named_net_parameters',
                      'PITFrozenFeaturesMasker/PITFrozenTimestepMasker/PITFrozenDilationMasker', 'MPS.update_softmax_options', 'MPSBaseQtz.update_softmax_options', 'SuperNet.update_softmax_options', 'forward + backward of loss + cost']
